@@ -188,3 +188,20 @@ func init() {
 		},
 	})
 }
+
+func init() {
+	register(&propDef{
+		ID: "LOOPTEST", Explanation: "wip", Rule: "wip",
+		Run: func(c *Ctx, r *Result) {
+			var fns []*ssa.Function
+			for _, f := range c.G.Funcs {
+				fns = append(fns, f)
+			}
+			counts := runLOOP(c, r, "LOOP", fns, nil)
+			runRecursion(c, r, "REC", c.REval)
+			runRecursion(c, r, "REC", c.RCompile)
+			r.Note("classes: %v", counts)
+			runAcceptPredicates(c, r, "LOOP")
+		},
+	})
+}
